@@ -959,3 +959,100 @@ Qed.
 
 Lemma stream_ready_init : stream_ready s_init.
 Proof. unfold stream_ready, s_init. cbn [s_cur s_dictSize]. lia. Qed.
+
+(* ================================================================ stale table entries are never used *)
+(* Streaming call: whatever earlier, unrelated inputs left in the hash table, every candidate that survives the
+   dictSmall test and the distance test of the search step - for the table on entry and for every table the
+   kernel can reach ([tab_ok] is the kernel's loop invariant, FastSound) - lies inside the history the call
+   designates, [startIndex - dictSize, c), c = current position + 1. *)
+Theorem continue_stale_skipped c source n :
+  table_inv c -> stream_ready c -> 0 <= n <= LZ4_MAX_INPUT_SIZE -> 0 < source ->
+  let c1 := fst (prelude c source n) in let dictEnd := snd (prelude c source n) in
+  let '(cc, dd, small) := continue_call c1 dictEnd source n in
+  let st := s_cur cc in let ds := cd_dictSize cc dd in
+  (* the table on entry is harmless *)
+  tab_ok ByU32 dd small st ds 0 (st + 1) (s_tab cc) /\
+  (* and a harmless table never yields a stale candidate *)
+  forall cb tab h, tab_ok ByU32 dd small st ds 0 cb tab -> st + 1 <= cb ->
+    let '(mi, low) := candidate dd st ds (cd_dtab cc dd) (st - cd_dcur cc dd) tab h in
+    mi < cb /\
+    (~ (small = true /\ mi < st - ds) -> ~ (mi + LZ4_DISTANCE_MAX < cb) -> st - ds <= low <= mi).
+Proof.
+  intros T R Hn Hs. cbv zeta.
+  pose proof (prelude_inv c source n T R Hn ltac:(lia)) as P. cbv zeta in P.
+  destruct P as (T1 & R1 & Q1 & X1 & S1 & Z1 & _).
+  pose proof (continue_call_ok (fst (prelude c source n)) (snd (prelude c source n)) source n T1 Q1 Z1 Hs Hn R1) as K.
+  destruct (continue_call (fst (prelude c source n)) (snd (prelude c source n)) source n) as [[cc dd] small].
+  destruct K as ((K1 & K2 & K3) & _ & _ & _ & _ & _ & K7 & _).
+  split; [exact K2|].
+  intros cb tab h Ht Hcb.
+  pose proof (candidate_spec ByU32 dd small (s_cur cc) (cd_dictSize cc dd) (cd_dtab cc dd) (s_cur cc - cd_dcur cc dd) n
+                K1 0 K3 ltac:(discriminate) ltac:(discriminate) cb tab h Ht Hcb) as C.
+  destruct (candidate dd (s_cur cc) (cd_dictSize cc dd) (cd_dtab cc dd) (s_cur cc - cd_dcur cc dd) tab h) as [mi low].
+  destruct C as (C1 & C2). split; [exact C1|]. intros N1 N2.
+  assert (Hh : hist_lo dd (s_cur cc) (cd_dictSize cc dd) = s_cur cc - cd_dictSize cc dd).
+  { unfold hist_lo. destruct dd; try reflexivity. congruence. }
+  rewrite <- Hh. apply C2; [exact N1|]. intros (_ & N). apply N2. exact N.
+Qed.
+
+(* One-shot call after the documented reset (LZ4_compress_fast_extState_fastReset = LZ4_prepareTable + kernel),
+   on a stream in ANY state the API can produce: no surviving candidate lies before the start of the current
+   input, i.e. no match can refer to an earlier, unrelated input. *)
+Theorem fastReset_stale_skipped c n :
+  table_inv c -> tt_inv c -> 0 <= n < LZ4_64Klimit \/ ttype_for n = ByU32 ->
+  let t := ttype_for n in
+  let c1 := s_prepareTable c n t in
+  let small := match t with ByU16 => negb (s_cur c1 =? 0) | ByU32 => false end in
+  let st := s_cur c1 in
+  tab_ok t CNoDict small st 0 0 (st + 1) (s_tab c1) /\
+  forall cb tab h, tab_ok t CNoDict small st 0 0 cb tab -> st + 1 <= cb ->
+    let '(mi, low) := candidate CNoDict st 0 empty 0 tab h in
+    mi < cb /\
+    (~ (small = true /\ mi < st - 0) -> ~ (dist_active t = true /\ mi + LZ4_DISTANCE_MAX < cb) -> st <= low <= mi).
+Proof.
+  intros (C & _) V Hn. cbv zeta.
+  pose proof (prepareTable_any c n (ttype_for n) C V) as P. cbv zeta in P.
+  destruct P as (P1 & P2 & P3 & P4 & P5 & P6 & P7 & _).
+  split; [exact P6|].
+  intros cb tab h Ht Hcb.
+  assert (Hu : dist_active (ttype_for n) = false ->
+               s_cur (s_prepareTable c n (ttype_for n)) + n - MFLIMIT - hist_lo CNoDict (s_cur (s_prepareTable c n (ttype_for n))) 0 <= 65535).
+  { unfold hist_lo, dist_active. destruct (ttype_for n) eqn:Et; [discriminate|]. intros _.
+    pose proof (ttype_for_u16 n Et). unfold LZ4_64Klimit, MFLIMIT in *. lia. }
+  assert (Hi : ttype_for n = ByU16 ->
+               mflimitPlusOne (s_cur (s_prepareTable c n (ttype_for n))) n <= 65536 \/
+               (match ttype_for n with ByU16 => negb (s_cur (s_prepareTable c n (ttype_for n)) =? 0) | ByU32 => false end) = true /\
+               65536 <= s_cur (s_prepareTable c n (ttype_for n)) - 0 /\ 0 <= 0).
+  { intros Et. destruct Hn as [Hn|Hn]; [|congruence].
+    destruct (P7 Et Hn) as [H|(H1 & H2)]; [left; unfold mflimitPlusOne, iend; lia | right; split; [exact H1 | split; [exact H2 | lia]]]. }
+  pose proof (candidate_spec (ttype_for n) CNoDict
+                (match ttype_for n with ByU16 => negb (s_cur (s_prepareTable c n (ttype_for n)) =? 0) | ByU32 => false end)
+                (s_cur (s_prepareTable c n (ttype_for n))) 0 empty 0 n ltac:(lia) 0 ltac:(discriminate) Hu Hi cb tab h Ht Hcb) as K.
+  destruct (candidate CNoDict (s_cur (s_prepareTable c n (ttype_for n))) 0 empty 0 tab h) as [mi low].
+  destruct K as (K1 & K2). split; [exact K1|]. intros N1 N2. unfold hist_lo in K2. apply K2; assumption.
+Qed.
+
+(* ================================================================ state injection (correspondence check) *)
+(* Shifting every index of a used 32-bit table by the same amount yields a state that satisfies the same
+   invariants: the states the check injects to reach the > 1 GB / > 2 GB regions are inside the domain of
+   the theorems (and designate the same dictionary bytes). *)
+Lemma shift_inv c delta :
+  table_inv c -> tt_inv c -> s_tt c = 2 -> 0 <= delta ->
+  let c' := shift_ctx c delta in
+  table_inv c' /\ tt_inv c' /\ s_dict c' = s_dict c /\ s_dictSize c' = s_dictSize c /\ s_dctx c' = s_dctx c /\
+  (stream_ready c -> s_cur c + delta <= 2147483648 -> stream_ready c').
+Proof.
+  intros ((C1 & C2 & C3 & C4) & D) (V1 & V2) Ht Hd. cbv zeta. unfold shift_ctx.
+  assert (G : forall h, get (PositiveMap.map (shift_entry delta) (s_tab c)) h = shift_entry delta (get (s_tab c) h)).
+  { intros h. apply get_map. reflexivity. }
+  split; [|split; [|split; [reflexivity | split; [reflexivity | split; [reflexivity|]]]]].
+  - unfold table_inv, range_ok. cbn [s_tab s_cur s_tt s_dictSize s_dctx].
+    split.
+    + split; [lia|]. split; [lia|]. split.
+      * intros h. rewrite G. unfold shift_entry. specialize (C3 h). destruct (get (s_tab c) h =? 0) eqn:E; lia.
+      * intros Hnz h. rewrite G. unfold shift_entry. specialize (C3 h).
+        destruct (get (s_tab c) h =? 0) eqn:E; [lia|]. specialize (C4 ltac:(lia) h). lia.
+    + destruct (s_dctx c); [|exact I]. destruct D as (D1 & D2 & D3). split; [exact D1|]. split; [exact D2 | lia].
+  - unfold tt_inv. cbn [s_tt s_cur]. split; [intros; lia | exact V2].
+  - intros (R1 & R2) Hb. unfold stream_ready. cbn [s_cur s_dictSize]. lia.
+Qed.
